@@ -423,6 +423,24 @@ def sections_and_slices(tier, seed):
                             b = m.slice_plane(plane_origin=o, plane_normal=-n, cap=True, engine=eng)
                             if abs(a.volume + b.volume - m.volume) > 1e-6 * max(1.0, abs(m.volume)):
                                 fail("cap[%s]:volumes-do-not-add-up" % eng, mname, pname, "%.9f + %.9f != %.9f" % (a.volume, b.volume, m.volume))
+                            # each half on its own: with the origin ON the plane a planar cap adds nothing
+                            # to the signed volume, so the uncapped slice alone fixes the half's volume
+                            for half, sgn in ((a, 1.0), (b, -1.0)):
+                                open_half = m.slice_plane(plane_origin=o, plane_normal=n * sgn, cap=False)
+                                t = open_half.triangles - o
+                                want = float(rnp.einsum("ij,ij->i", t[:, 0], rnp.cross(t[:, 1], t[:, 2])).sum() / 6.0) if len(t) else 0.0
+                                if abs(half.volume - want) > 1e-6 * max(1.0, abs(m.volume)):
+                                    fail("cap[%s]:volume-of-one-half-wrong" % eng, mname, pname, "%.9f vs %.9f" % (half.volume, want))
+                                # the cap is the cross-section region: same area as the section polygons
+                                tri = half.triangles
+                                onp = rnp.abs((tri - o) @ nu).max(axis=1) < 1e-8 * max(1.0, scale)
+                                cap_area = float(half.area_faces[onp].sum())
+                                sec2 = m.section(plane_origin=o, plane_normal=n)
+                                if sec2 is not None:
+                                    planar, _ = sec2.to_2D()
+                                    sec_area = float(sum(pg.area for pg in planar.polygons_full))
+                                    if abs(cap_area - sec_area) > 1e-6 * max(1.0, sec_area):
+                                        fail("cap[%s]:cap-area-differs-from-section-area" % eng, mname, pname, "%.9f vs %.9f" % (cap_area, sec_area))
                             if mname in ("box", "ico", "cone") and not (a.is_watertight and b.is_watertight):
                                 fail("cap[%s]:half-of-convex-solid-not-watertight" % eng, mname, pname)
                         except Exception as ex:  # noqa: BLE001
